@@ -139,7 +139,7 @@ func (n *Node) String() string {
 func (n *Node) Close() error {
 	n.mu.Lock()
 	defer n.mu.Unlock()
-	if n.done.Load() != 0 {
+	if n.done.Load() != 0 && n.db != nil {
 		return n.db.Close()
 	} else {
 		return nil
